@@ -309,3 +309,19 @@ def sort_records_invalid(case, why):
     import re
     m = re.match(r"result of (arg)?sort fails validity: .* \[root type: (.*)\]$", why)
     return bool(m) and ("{" in m.group(2) or "(" in m.group(2))
+
+
+def broadcast_empty_regular_with_empty_list(case, why):
+    """F39: broadcast_and_apply.all_same_offsets treats a zero-length RegularArray of size 0 and a zero-length
+    ListArray/ListOffsetArray as having the same offsets, and the same-offsets branch leaves the RegularArray
+    unexpanded: ak.broadcast_arrays raises for these two EMPTY arrays."""
+    if case.get("act") != "ufunc" or "cannot broadcast RegularArray of size 0 with RegularArray of size 1" not in why:
+        return False
+    a, b = case.get("from", {}), case.get("aux", {})
+
+    def empty_reg0(L):
+        return L.get("c") == "Regular" and L.get("size") == 0 and L.get("zl") == 0
+
+    def empty_var(L):
+        return (L.get("c") == "List" and len(L.get("s", [1])) == 0) or (L.get("c") == "ListOffset" and len(L.get("o", [])) == 1)
+    return (empty_reg0(a) and empty_var(b)) or (empty_reg0(b) and empty_var(a))
